@@ -79,7 +79,8 @@ where
         // 0. capacity.
         {
             let any_vec_raw = unsafe{any_vec_ptr.any_vec_raw_mut()};
-            any_vec_raw.reserve(new_len);
+            // `reserve` takes the additional count; `len` is `start` by now.
+            any_vec_raw.reserve(new_len - self.start);
         }
 
         // 1. drop elements.
